@@ -3,6 +3,7 @@ from __future__ import annotations
 
 import copy
 import json
+from collections import Counter
 
 from .. import sse_gen as G
 from .. import sse_h as H
@@ -44,7 +45,14 @@ RULE = (
     "multi-byte characters, CRLF, comments, keepalives and junk; exit paths {normal, exception in body, asyncio cancellation, anyio "
     "cancel scope} x 13-17 points of a request's life x 6 modes; back-pressure: the consumer pauses while bursts of 0/1/99/100/101/150/400 "
     "server messages (one chunk, one chunk per event, arbitrary cuts) queue up, with a request whose answer travels behind the burst; "
-    "three tie orders (events/timers/io). Real sse_client under the virtual-time loop vs SseReq.session; "
+    "three tie orders (events/timers/io); hardening sweep (suite variants): request ids {7, \"7\", 0, \"0\", \"\", -1, 2^53+1, format-hostile, 5000 chars, "
+    "strings the transport looks for} x every mode incl. unreadable 200 bodies x written as dict / JSONRPCMessage, id twins and one id used "
+    "again in serial requests, answers with empty/falsy members, error answers with falsy members or the transport's own codes, extra members, "
+    "notifications / non-messages / failing notification POSTs around requests, 21 other status codes x 4 body kinds, hostile texts in bodies and "
+    "exception texts, events that carry nothing and duplicated / magic-substring / oddly ordered messages around requests, server half-close, "
+    "header / bearer variants, a second session on the same parameters object, try_sse_with_fallback, producer back-pressure (client awaits "
+    "99..150 sends while the sender is blocked), a 20 kB (thorough: 100 kB) message; arrivals exactly on the enter timeout / connection cap / "
+    "202-wait expiry and refused URLs with the oracle only (suite boundaries). Real sse_client under the virtual-time loop vs SseReq.session; "
     "non-trivial = distinct case whose stream or request list is non-empty"
 )
 TRUSTED = [
@@ -54,8 +62,9 @@ TRUSTED = [
 ]
 ASSUMPTIONS = [
     "scripted instants never coincide with the timeout / connection-cap instants in the correspondence run (either outcome satisfies the property there)",
-    "server messages on the event stream carry ids different from the ids of the client's requests in flight",
-    "request ids are strings (the library's own default); a synthesised error carries str(id)",
+    "server messages on the event stream carry ids whose str() differs from str(id) of the client's requests in flight (the pending table is keyed by str(id))",
+    "ids are compared with their JSON type (7 is not \"7\"), also for the messages the transport synthesises",
+    "a second endpoint announcement, two answers to one request, an answer after the synthesised timeout, data split over several data: lines and fields without the space after the colon are outside the quantifier and not generated",
     "no theorem depends on the connection cap or on the codes of the synthesised errors; the generator re-reads them from the source on every run (through constants and builder functions) and otherwise measures the cap on the running code and compares synthesised errors without their codes (see notes)",
     "release of real tasks/streams/clients is observed only through the mock transport (no real sockets in the quick tier)",
 ]
@@ -69,15 +78,25 @@ def _norm_url(u):
         return u
 
 
-def term_kind(m):
-    if not isinstance(m, dict):
-        return "other"
-    if isinstance(m.get("result"), dict) and m["result"].get("tag") in ("body", "ev"):
-        return "routed:" + m["result"]["tag"]
-    err = m.get("error")
+def same_id(a, b):
+    """JSON-RPC ids are equal only with their JSON type (7 is not "7")"""
+    return not isinstance(a, bool) and not isinstance(b, bool) and type(a) is type(b) and a == b
+
+
+def is_response(m):
+    return isinstance(m, dict) and m.get("id") is not None and "method" not in m
+
+
+def term_kind(m, group):
+    """where a delivered response comes from: the scripted answer of one of the requests `group`
+    (in the POST reply / on the event stream / in the body of another status) or synthesised"""
+    for r in group:
+        hits = [w for w in ("body", "ev", "post") if canon(H.answer_msg(r, w)) == canon(m)]
+        if hits:
+            want = "body" if r["mode"] == "200" else "post" if r["mode"] == "status" else "ev"
+            return "routed:" + (want if want in hits else hits[0])
+    err = m.get("error") if isinstance(m, dict) else None
     if isinstance(err, dict):
-        if err.get("code") == -32001:  # the scripted JSON-RPC error body of an other-status reply
-            return "routed:post"
         L = G.lits()
         if not L["codes_known"]:
             return "synth"  # some synthesised error: the property does not name its code
@@ -89,12 +108,14 @@ def term_kind(m):
 
 
 def split_delivered(case, o):
-    ids = [r["id"] for r in case.get("reqs", [])]
-    terms = {i: [] for i in ids}
+    """-> ({str(id): [responses whose str(id) is that of a request]}, [everything else])
+    (grouped the way the transport's pending table is keyed; the JSON type of the id is the
+    oracle's business)"""
+    terms = {G.py_key(r["id"]): [] for r in G.real_reqs(case)}
     srv = []
     for m in o.get("delivered", []):
-        if isinstance(m, dict) and m.get("id") in terms and isinstance(m.get("id"), str) and "method" not in m:
-            terms[m["id"]].append(m)
+        if is_response(m) and not isinstance(m["id"], bool) and G.py_key(m["id"]) in terms:
+            terms[G.py_key(m["id"])].append(m)
         else:
             srv.append(m)
     return terms, srv
@@ -115,7 +136,9 @@ def impl_shape(case, o, what):
     terms, srv = split_delivered(case, o)
     out["url"] = o["posts"][0][1] if o.get("posts") else None
     out["srv"] = srv
-    out["terms"] = [[term_kind(m) for m in terms[r["id"]]] for r in case.get("reqs", [])]
+    reqs = G.real_reqs(case)
+    out["terms"] = [[term_kind(m, [x for x in reqs if G.py_key(x["id"]) == G.py_key(r["id"])]) for m in terms[G.py_key(r["id"])]]
+                    for r in reqs]
     return out
 
 
@@ -128,7 +151,7 @@ def model_shape(case, out, what):
         m["released"] = out["released"]
         return m
     url = "".join(chr(c) for c in e["url"])
-    m["url"] = _norm_url(url) if case.get("reqs") else None
+    m["url"] = _norm_url(url) if any(r["mode"] != "garbage" for r in case.get("reqs", [])) else None
     m["srv"] = [json.loads("".join(chr(c) for c in d)) for d in out["srv"]]
     m["terms"] = out["terms"]
     if not G.lits()["codes_known"]:
@@ -176,26 +199,35 @@ def oracle_requests(case, o, upto=None):
     if o.get("deadlock") is not None:
         return oracle_release(case, o)
     terms, srv = split_delivered(case, o)
-    for r in case.get("reqs", []):
-        ms = terms[r["id"]]
+    reqs = G.real_reqs(case)
+    for r in reqs:
+        group = terms[G.py_key(r["id"])]
+        mine = [m for m in group if same_id(m["id"], r["id"])]
+        expect = sum(1 for x in reqs if same_id(x["id"], r["id"]))
         tag = r["mode"] + ("/" + r.get("body", "text") if r["mode"] == "status" else "")
-        if len(ms) == 0:
-            return ("terminal/none/" + tag, f"request {r['id']} ({tag}) got no message with its id on the read stream; "
-                    f"delivered={o.get('delivered')}", {"terminals": 1})
-        if len(ms) > 1:
-            return ("terminal/many/" + tag, f"request {r['id']} ({tag}) got {len(ms)} messages with its id", {"terminals": 1})
-        if "result" not in ms[0] and "error" not in ms[0]:
-            return ("terminal/not-a-response/" + tag, f"request {r['id']}: {ms[0]}", None)
+        idk = "int" if isinstance(r["id"], int) else "str"
+        if len(mine) < expect:
+            twins = [m for m in group if not same_id(m["id"], r["id"])]
+            if twins and len(mine) + len(twins) >= expect and not any(same_id(x["id"], twins[0]["id"]) for x in reqs):
+                return (f"terminal/id-type/{tag}/{idk}-id", f"request {r['id']!r} ({tag}) was answered by a message whose id has another JSON type: "
+                        f"{twins[0]}", {"id": r["id"]})
+            return (f"terminal/none/{tag}", f"request {r['id']!r} ({tag}) got {len(mine)} of {expect} messages with its id on the read stream; "
+                    f"delivered={o.get('delivered')[:12]}", {"terminals": expect})
+        if len(mine) > expect:
+            return (f"terminal/many/{tag}", f"request {r['id']!r} ({tag}) got {len(mine)} messages with its id, expected {expect}", {"terminals": expect})
+        for m in mine:
+            if "result" not in m and "error" not in m:
+                return ("terminal/not-a-response/" + tag, f"request {r['id']!r}: {m}", None)
     want = G.expected_srv(case)
-    if srv != want:
-        cs, cw = [canon(x) for x in srv], [canon(x) for x in want]
+    cs, cw = [canon(x) for x in srv], [canon(x) for x in want]
+    if cs != cw:
         if sorted(cs) == sorted(cw):
             k = "order"
         elif any(cs.count(x) > cw.count(x) for x in cs):
             k = "extra"
         else:
             k = "lost"
-        return ("server-messages/" + k, f"server messages delivered {srv} != sent {want}", {"srv": want})
+        return ("server-messages/" + k, f"server messages delivered {str(srv)[:600]} != sent {str(want)[:600]}", {"srv": want[:50]})
     return None
 
 
@@ -222,13 +254,32 @@ def oracle_release(case, o):
     return None
 
 
+FEATURES = Counter()
+OUTCOMES = Counter()
+
+
 class Base(Suite):
     what = "transcript"
+
+    def nontrivial(self, case, o):
+        # called once per case by the runner: also the place where coverage is tallied
+        for f in G.features(case):
+            FEATURES[f] += 1
+        e = (o.get("enter") or {}).get("k", "none")
+        OUTCOMES["enter:" + e + (":" + (o.get("enter") or {}).get("exc", "") if e == "raised" else "")] += 1
+        for m in o.get("delivered", []):
+            if isinstance(m, dict) and isinstance(m.get("error"), dict):
+                OUTCOMES["delivered-error-code:" + str(m["error"].get("code"))] += 1
+        if o.get("write_errors"):
+            OUTCOMES["write-errors"] += 1
+        return bool(case.get("items") or case.get("reqs"))
 
     def impl_batch(self, cases):
         return [H.run_case(G.harness_case(c)) for c in cases]
 
     def model_line(self, case):
+        if case.get("boundary"):
+            return None  # a tie with a timer of the code: either outcome is fine, oracle only
         return G.model_line(case)
 
     def model_obs(self, out, case):
@@ -240,9 +291,6 @@ class Base(Suite):
         if o.get("harness_errors"):
             return "harness error: %s" % o["harness_errors"]
         return None if canon(impl_shape(case, o, self.what)) == canon(m) else "differs"
-
-    def nontrivial(self, case, o):
-        return bool(case.get("items") or case.get("reqs"))
 
     def shrink_candidates(self, case):
         def norm(c):
@@ -392,6 +440,50 @@ class Backpressure(Base):
         return f"backpressure/burst-{n}/{modes[0] if modes else 'no-request'}"
 
 
+class Variants(Base):
+    """the hardening sweep: falsy / twin / hostile ids, answers, texts; message forms; other
+    statuses; empty events; half-closed stream; header variants; reuse; producer back-pressure"""
+    name = "variants"
+
+    def cases(self, ctx, budget):
+        return G.hardening_cases(budget, ctx.sub_rng("c12-variants", budget))
+
+    def oracle(self, case, o):
+        if o.get("harness_errors"):
+            return None
+        v = oracle_enter(case, o)
+        if v is None and case.get("warm") and (o.get("warm") or {}).get("k") != (o.get("enter") or {}).get("k"):
+            return ("reuse/second-session-differs", f"first session on the parameters object {o.get('warm')}, second {o.get('enter')} (same server script)", None)
+        if v is None and (o.get("enter") or {}).get("k") == "yielded":
+            v = oracle_requests(case, o)
+        if v is None and (o.get("enter") or {}).get("k") == "yielded":
+            v = oracle_release(case, o)
+        return v
+
+    def kind(self, case, o):
+        modes = [r["mode"] for r in case.get("reqs", [])][:3]
+        tags = [x for x in ("warm", "api", "write_mode", "params", "close", "notif_post") if case.get(x) is not None]
+        return "variants/" + "+".join(modes) + ("/" + ",".join(tags) if tags else "")
+
+
+class Boundaries(Base):
+    name = "boundaries"
+
+    def cases(self, ctx, budget):
+        return G.boundary_cases(budget, ctx.sub_rng("c12-boundaries", budget))
+
+    def oracle(self, case, o):
+        if o.get("harness_errors"):
+            return None
+        v = oracle_enter(case, o)
+        if v is None and (o.get("enter") or {}).get("k") == "yielded":
+            v = oracle_requests(case, o)
+        return v
+
+    def kind(self, case, o):
+        return "boundary/" + (o.get("enter") or {}).get("k", "none")
+
+
 class Exits(Base):
     name = "exits"
     what = "release"
@@ -418,7 +510,11 @@ def extra(ctx, tier):
     for n in G.lits()["notes"]:
         if n not in ctx.notes:
             ctx.notes.append("C12 literals: " + n)
+    for k, v in sorted(FEATURES.items()):
+        ctx.dist["feature:" + k] = v
+    for k, v in sorted(OUTCOMES.items()):
+        ctx.dist["outcome:" + k] = v
 
 
 def suites():
-    return [Establish(), Requests(), Chunking(), Backpressure(), Exits()]
+    return [Establish(), Requests(), Chunking(), Backpressure(), Variants(), Boundaries(), Exits()]
